@@ -240,7 +240,7 @@ def eval_config(item, seed=0, scratch="/tmp"):
 # the checks of the prefix that ends there, and every prefix is enumerated as a history of its own.
 def _hist_graphs():
     L, C, D, O = S.L, S.C, S.D, S.O
-    T, G, A = L("t_f64"), L("t_f32_grad"), L("arr:f64:(2, 3)")
+    T, G, A = L("t_f64"), L("t_f32_grad_2x3"), L("arr:f64:(2, 3)")  # both tensors hold ordinary values next to nan/-0/inf
     M = lambda op, *path: ["mut", op, list(path)]  # noqa: E731
     SET = lambda desc, *path: ["mut", "set", list(path), desc]  # noqa: E731
     return {
@@ -488,7 +488,11 @@ def run(ctx):
 
     ctx.selftest(once)
     ctx.say(f"grammar: {bounds}")
-    merged = ctx.pmap(eval_graph, items, label="graphs", seed=ctx.seed, scratch=ctx.scratch)
+    # the wide containers are scheduled on their own, most expensive first, one per chunk
+    wide_items = sorted((it for it in items if it["fam"] == "wide_container"), key=lambda it: -S.wide_cost(it["g"]))
+    merged_w = ctx.pmap(eval_graph, wide_items, chunk=1, label="wide containers", seed=ctx.seed, scratch=ctx.scratch)
+    merged = ctx.pmap(eval_graph, [it for it in items if it["fam"] != "wide_container"], label="graphs", seed=ctx.seed, scratch=ctx.scratch)
+    merged.merge(merged_w)
     cfg_items = [
         {"core": i, "g": g, "store": s, "compression": c}
         for i, g in enumerate(core) for s in STORES for c in COMPRESSIONS
